@@ -278,20 +278,20 @@ Hypothesis dead_stays : forall cfg s ev, worker s = Dead -> worker (step_state c
 (** * C06 *)
 
 (* STATEMENT: a put heavier than the whole cache is rejected for that reason and changes nothing *)
-Lemma admit_too_heavy : forall cfg orc k id h w s,
-  c_max cfg < w -> admit cfg orc k id h w s = (AdStatus (Rejected TooHeavy), s, []).
+Lemma admission_too_heavy : forall cfg orc k id h w s,
+  c_max cfg < w -> admission cfg orc k id h w s = (AdStatus (Rejected TooHeavy), s, []).
 Proof.
-  intros cfg orc k id h w s H. unfold admit.
+  intros cfg orc k id h w s H. unfold admission.
   destruct (c_max cfg <? w) eqn:E; [reflexivity|lia].
 Qed.
 
 (* STATEMENT: a put that fits in the free space is accepted, evicts nothing, and only charges the incoming id *)
-Lemma admit_fits : forall cfg orc k id h w s,
+Lemma admission_fits : forall cfg orc k id h w s,
   wf_config cfg -> 0 <= used s -> 0 < w -> w <= c_max cfg - used s ->
-  admit cfg orc k id h w s = (AdStatus Accepted, charged k id h w s, []).
+  admission cfg orc k id h w s = (AdStatus Accepted, charged k id h w s, []).
 Proof.
   intros cfg orc k id h w s Hwf Hu Hw Hfit. pose proof (wf_max _ Hwf) as Hmax.
-  unfold admit.
+  unfold admission.
   destruct (c_max cfg <? w) eqn:E1; [lia|].
   destruct (w <=? c_max cfg - used s) eqn:E2; [|lia].
   rewrite weights_add_in_range; [reflexivity|]. unfold i64_min. lia.
@@ -577,7 +577,7 @@ Proof.
   rewrite Hw1. pose proof (length_aremove_lt _ _ _ _ Hlk). lia.
 Qed.
 
-(* STATEMENT: the fuel given by [admit] is never exhausted *)
+(* STATEMENT: the fuel given by [admission] is never exhausted *)
 Lemma create_space_fuel_sufficient : forall cfg est inc w orders pops sm s vs,
   wf_config cfg -> Inv cfg s -> sample_ok s sm ->
   forall res s' vs', create_space_loop (length (weights s) + 7) cfg est inc w orders pops sm (c_max cfg - used s) s vs = (res, s', vs') ->
@@ -610,11 +610,11 @@ Proof.
     + inversion H; subst. apply sol_refl.
 Qed.
 
-(** whatever [admit] returns, only store / ledger / statistics differ *)
-Lemma admit_sol : forall cfg orc k id h w s res s' vs,
-  admit cfg orc k id h w s = (res, s', vs) -> same_outside_ledger s s'.
+(** whatever [admission] returns, only store / ledger / statistics differ *)
+Lemma admission_sol : forall cfg orc k id h w s res s' vs,
+  admission cfg orc k id h w s = (res, s', vs) -> same_outside_ledger s s'.
 Proof.
-  intros cfg orc k id h w s res s' vs H. unfold admit in H. cbv zeta in H.
+  intros cfg orc k id h w s res s' vs H. unfold admission in H. cbv zeta in H.
   destruct (c_max cfg <? w); [inversion H; subst; apply sol_refl|].
   destruct (w <=? c_max cfg - used s).
   { destruct (weights_add cfg k id h w s) as [s1|site s1|why] eqn:Ea; inversion H; subst.
@@ -650,10 +650,10 @@ Qed.
 Lemma sample_ok_nil : forall s, sample_ok s [].
 Proof. intros s. split; [constructor|intros x []]. Qed.
 
-(** [admit_spec] plus: the victims' recorded weights are positive (so a rejected put never raises the total) *)
-Lemma admit_strong : forall cfg orc k id h w s res s' vs,
+(** [admission_spec] plus: the victims' recorded weights are positive (so a rejected put never raises the total) *)
+Lemma admission_strong : forall cfg orc k id h w s res s' vs,
   wf_config cfg -> Inv cfg s -> 0 < w -> alookup id (weights s) = None ->
-  admit cfg orc k id h w s = (AdStatus res, s', vs) ->
+  admission cfg orc k id h w s = (AdStatus res, s', vs) ->
   ((res = Accepted \/ res = Rejected NoSpace \/ res = Rejected TooHeavy) /\
   (res = Rejected TooHeavy <-> c_max cfg < w) /\
   (w <= c_max cfg - used s -> res = Accepted /\ vs = []) /\
@@ -666,8 +666,8 @@ Lemma admit_strong : forall cfg orc k id h w s res s' vs,
 Proof.
   intros cfg orc k id h w s res s' vs Hwf HI Hw Hfresh H.
   pose proof (wf_max _ Hwf) as Hmax. pose proof (inv_used_nonneg _ _ HI) as Hu.
-  pose proof (admit_sol _ _ _ _ _ _ _ _ _ _ H) as Hsol.
-  unfold admit in H. cbv zeta in H.
+  pose proof (admission_sol _ _ _ _ _ _ _ _ _ _ H) as Hsol.
+  unfold admission in H. cbv zeta in H.
   destruct (c_max cfg <? w) eqn:E0.
   { inversion H; subst. split; [|constructor].
     split; [right; right; reflexivity|]. split; [split; [intros _; lia|reflexivity]|].
@@ -717,9 +717,9 @@ Qed.
 
 (* STATEMENT: the whole admission decision.  Accepted exactly when the space after the evictions suffices;
    victims never hotter than the incoming key; partial evictions of a rejected put stay evicted. *)
-Lemma admit_spec : forall cfg orc k id h w s res s' vs,
+Lemma admission_spec : forall cfg orc k id h w s res s' vs,
   wf_config cfg -> Inv cfg s -> 0 < w -> alookup id (weights s) = None ->
-  admit cfg orc k id h w s = (AdStatus res, s', vs) ->
+  admission cfg orc k id h w s = (AdStatus res, s', vs) ->
   (res = Accepted \/ res = Rejected NoSpace \/ res = Rejected TooHeavy) /\
   (res = Rejected TooHeavy <-> c_max cfg < w) /\
   (w <= c_max cfg - used s -> res = Accepted /\ vs = []) /\
@@ -730,7 +730,7 @@ Lemma admit_spec : forall cfg orc k id h w s res s' vs,
   same_outside_ledger s s'.
 Proof.
   intros cfg orc k id h w s res s' vs Hwf HI Hw Hfresh H.
-  exact (proj1 (admit_strong _ _ _ _ _ _ _ _ _ _ Hwf HI Hw Hfresh H)).
+  exact (proj1 (admission_strong _ _ _ _ _ _ _ _ _ _ Hwf HI Hw Hfresh H)).
 Qed.
 
 (** * C01 *)
@@ -953,17 +953,17 @@ Proof.
 Qed.
 
 (** an answered put leaves the total within the limit if it was within the limit before *)
-Lemma admit_used_bound : forall cfg orc k id h w s x s1 vs,
+Lemma admission_used_bound : forall cfg orc k id h w s x s1 vs,
   wf_config cfg -> Inv cfg s -> 0 < w -> alookup id (weights s) = None -> used s <= c_max cfg ->
-  admit cfg orc k id h w s = (AdStatus x, s1, vs) -> used s1 <= c_max cfg.
+  admission cfg orc k id h w s = (AdStatus x, s1, vs) -> used s1 <= c_max cfg.
 Proof.
   intros cfg orc k id h w s x s1 vs Hwf HI Hw Hfresh Hu Ha.
-  destruct (admit_strong _ _ _ _ _ _ _ _ _ _ Hwf HI Hw Hfresh Ha) as ((H1 & H2 & _ & _ & H5 & H6 & _) & Hpos).
+  destruct (admission_strong _ _ _ _ _ _ _ _ _ _ Hwf HI Hw Hfresh Ha) as ((H1 & H2 & _ & _ & H5 & H6 & _) & Hpos).
   apply zsum_weights_nonneg in Hpos.
   destruct H1 as [H1|[H1|H1]].
   - destruct (H5 H1) as [H _]. exact H.
   - destruct (H6 H1) as (_ & H & _). lia.
-  - apply H2 in H1. rewrite (admit_too_heavy cfg orc k id h w s H1) in Ha. inversion Ha; subst. exact Hu.
+  - apply H2 in H1. rewrite (admission_too_heavy cfg orc k id h w s H1) in Ha. inversion Ha; subst. exact Hu.
 Qed.
 
 Lemma weights_update_used : forall cfg id w s s', c_debug cfg = true -> weights_update cfg id w s = Ok s' ->
@@ -1011,19 +1011,19 @@ Proof.
   destruct c as [k v id h w|k v id h w ttl|k|id w|].
   - cbn [cmd_weight_ok] in Hcw. specialize (Hfresh id eq_refl).
     destruct (amem k (store s0)); [exact Hu|].
-    destruct (admit cfg orc k id h w s0) as [[r s1] vs] eqn:Ea.
+    destruct (admission cfg orc k id h w s0) as [[r s1] vs] eqn:Ea.
     destruct r as [x|site|why].
     + assert (H1 : used s1 <= c_max cfg).
-      { eapply admit_used_bound; [exact Hwf|exact HI0|exact Hcw| |rewrite Hu0; exact Hu|exact Ea]. rewrite Hw0. exact Hfresh. }
+      { eapply admission_used_bound; [exact Hwf|exact HI0|exact Hcw| |rewrite Hu0; exact Hu|exact Ea]. rewrite Hw0. exact Hfresh. }
       destruct x; exact H1.
     + exfalso. apply Halive. reflexivity.
     + exact Hu.
   - cbn [cmd_weight_ok] in Hcw. specialize (Hfresh id eq_refl).
     destruct (amem k (store s0)); [exact Hu|].
-    destruct (admit cfg orc k id h w s0) as [[r s1] vs] eqn:Ea.
+    destruct (admission cfg orc k id h w s0) as [[r s1] vs] eqn:Ea.
     destruct r as [x|site|why].
     + assert (H1 : used s1 <= c_max cfg).
-      { eapply admit_used_bound; [exact Hwf|exact HI0|exact Hcw| |rewrite Hu0; exact Hu|exact Ea]. rewrite Hw0. exact Hfresh. }
+      { eapply admission_used_bound; [exact Hwf|exact HI0|exact Hcw| |rewrite Hu0; exact Hu|exact Ea]. rewrite Hw0. exact Hfresh. }
       destruct x; try exact H1.
       destruct (calc_expiry (now s1) ttl); [exact H1|]. exfalso. apply Halive. reflexivity.
     + exfalso. apply Halive. reflexivity.
@@ -1097,12 +1097,12 @@ Proof.
   exact (IH _ _ _ _ _ _ _ _ _ _ _ _ Hwf HI1 Hok1 H).
 Qed.
 
-Lemma admit_no_panic : forall cfg orc k id h w s site s' vs,
-  wf_config cfg -> Inv cfg s -> 0 < w -> admit cfg orc k id h w s <> (AdPanic site, s', vs).
+Lemma admission_no_panic : forall cfg orc k id h w s site s' vs,
+  wf_config cfg -> Inv cfg s -> 0 < w -> admission cfg orc k id h w s <> (AdPanic site, s', vs).
 Proof.
   intros cfg orc k id h w s site s' vs Hwf HI Hw H.
   pose proof (wf_max _ Hwf) as Hmax. pose proof (inv_used_nonneg _ _ HI) as Hu.
-  unfold admit in H. cbv zeta in H.
+  unfold admission in H. cbv zeta in H.
   destruct (c_max cfg <? w) eqn:E0; [discriminate H|].
   destruct (w <=? c_max cfg - used s) eqn:E1.
   { rewrite weights_add_in_range in H; [discriminate H|unfold i64_min; lia]. }
@@ -1207,6 +1207,7 @@ Lemma accepted_put_within_limit : forall cfg s orc c a q,
 (** the true variant: the same statement with the one premise [Inv] does not give, namely that the put had not been
     answered [Accepted] already (in reachable states its acknowledgement is [Pending]).  The premise
     [~ In a (map snd q)] of the original is kept although it is not needed. *)
+(* STATEMENT *)
 Lemma accepted_put_within_limit_partial : forall cfg s orc c a q,
   wf_config cfg -> Inv cfg s -> worker s = Alive -> queue s = (c, a) :: q ->
   (exists k v id h w, c = CPut k v id h w) \/ (exists k v id h w ttl, c = CPutTTL k v id h w ttl) ->
@@ -1225,10 +1226,10 @@ Proof.
   - cbn [cmd_weight_ok] in Hcw. specialize (Hfresh id eq_refl). rewrite <- Hw0 in Hfresh.
     destruct (amem k (store s0)).
     { cbn [fst]. rewrite set_ack_lookup. discriminate. }
-    destruct (admit cfg orc k id h w s0) as [[r s1] vs] eqn:Ea.
-    pose proof (admit_sol _ _ _ _ _ _ _ _ _ _ Ea) as (_ & _ & Hacks & _).
+    destruct (admission cfg orc k id h w s0) as [[r s1] vs] eqn:Ea.
+    pose proof (admission_sol _ _ _ _ _ _ _ _ _ _ Ea) as (_ & _ & Hacks & _).
     destruct r as [x|site|why].
-    + destruct (admit_strong _ _ _ _ _ _ _ _ _ _ Hwf HI0 Hcw Hfresh Ea) as ((_ & _ & _ & _ & H5 & _) & _).
+    + destruct (admission_strong _ _ _ _ _ _ _ _ _ _ Hwf HI0 Hcw Hfresh Ea) as ((_ & _ & _ & _ & H5 & _) & _).
       destruct x; cbn [fst]; try (rewrite set_ack_lookup; discriminate).
       intros _. destruct (H5 eq_refl) as [H _]. exact H.
     + cbn [fst acks set_worker]. rewrite Hacks, Ha0. intros H. contradiction.
@@ -1236,10 +1237,10 @@ Proof.
   - cbn [cmd_weight_ok] in Hcw. specialize (Hfresh id eq_refl). rewrite <- Hw0 in Hfresh.
     destruct (amem k (store s0)).
     { cbn [fst]. rewrite set_ack_lookup. discriminate. }
-    destruct (admit cfg orc k id h w s0) as [[r s1] vs] eqn:Ea.
-    pose proof (admit_sol _ _ _ _ _ _ _ _ _ _ Ea) as (_ & _ & Hacks & _).
+    destruct (admission cfg orc k id h w s0) as [[r s1] vs] eqn:Ea.
+    pose proof (admission_sol _ _ _ _ _ _ _ _ _ _ Ea) as (_ & _ & Hacks & _).
     destruct r as [x|site|why].
-    + destruct (admit_strong _ _ _ _ _ _ _ _ _ _ Hwf HI0 Hcw Hfresh Ea) as ((_ & _ & _ & _ & H5 & _) & _).
+    + destruct (admission_strong _ _ _ _ _ _ _ _ _ _ Hwf HI0 Hcw Hfresh Ea) as ((_ & _ & _ & _ & H5 & _) & _).
       destruct x; cbn [fst]; try (rewrite set_ack_lookup; discriminate).
       destruct (calc_expiry (now s1) ttl).
       * intros _. destruct (H5 eq_refl) as [H _]. exact H.
@@ -1250,6 +1251,7 @@ Qed.
 
 (** a second true variant: no premise on the acknowledgements, but the oracle of the step is admissible (the step
     does not answer [7; _]).  Uses that admission cannot panic. *)
+(* STATEMENT *)
 Lemma accepted_put_within_limit_admissible : forall cfg s orc c a q,
   wf_config cfg -> Inv cfg s -> worker s = Alive -> queue s = (c, a) :: q ->
   (exists k v id h w, c = CPut k v id h w) \/ (exists k v id h w ttl, c = CPutTTL k v id h w ttl) ->
@@ -1266,23 +1268,23 @@ Proof.
   - cbn [cmd_weight_ok] in Hcw. specialize (Hfresh id eq_refl). rewrite <- Hw0 in Hfresh.
     destruct (amem k (store s0)).
     { cbn [fst]. rewrite set_ack_lookup. discriminate. }
-    destruct (admit cfg orc k id h w s0) as [[r s1] vs] eqn:Ea.
+    destruct (admission cfg orc k id h w s0) as [[r s1] vs] eqn:Ea.
     destruct r as [x|site|why].
-    + destruct (admit_strong _ _ _ _ _ _ _ _ _ _ Hwf HI0 Hcw Hfresh Ea) as ((_ & _ & _ & _ & H5 & _) & _).
+    + destruct (admission_strong _ _ _ _ _ _ _ _ _ _ Hwf HI0 Hcw Hfresh Ea) as ((_ & _ & _ & _ & H5 & _) & _).
       destruct x; cbn [fst]; try (rewrite set_ack_lookup; discriminate).
       intros _ _. destruct (H5 eq_refl) as [H _]. exact H.
-    + exfalso. eapply admit_no_panic; [exact Hwf|exact HI0|exact Hcw|exact Ea].
+    + exfalso. eapply admission_no_panic; [exact Hwf|exact HI0|exact Hcw|exact Ea].
     + cbn [snd]. intros H. exfalso. eapply H. reflexivity.
   - cbn [cmd_weight_ok] in Hcw. specialize (Hfresh id eq_refl). rewrite <- Hw0 in Hfresh.
     destruct (amem k (store s0)).
     { cbn [fst]. rewrite set_ack_lookup. discriminate. }
-    destruct (admit cfg orc k id h w s0) as [[r s1] vs] eqn:Ea.
+    destruct (admission cfg orc k id h w s0) as [[r s1] vs] eqn:Ea.
     destruct r as [x|site|why].
-    + destruct (admit_strong _ _ _ _ _ _ _ _ _ _ Hwf HI0 Hcw Hfresh Ea) as ((_ & _ & _ & _ & H5 & _) & _).
+    + destruct (admission_strong _ _ _ _ _ _ _ _ _ _ Hwf HI0 Hcw Hfresh Ea) as ((_ & _ & _ & _ & H5 & _) & _).
       destruct x; cbn [fst]; try (rewrite set_ack_lookup; discriminate).
       destruct (H5 eq_refl) as [H _].
       destruct (calc_expiry (now s1) ttl); intros _ _; exact H.
-    + exfalso. eapply admit_no_panic; [exact Hwf|exact HI0|exact Hcw|exact Ea].
+    + exfalso. eapply admission_no_panic; [exact Hwf|exact HI0|exact Hcw|exact Ea].
     + cbn [snd]. intros H. exfalso. eapply H. reflexivity.
 Qed.
 
@@ -1350,5 +1352,5 @@ Qed.
 End Admission.
 
 Print Assumptions create_space_spec.
-Print Assumptions admit_spec.
+Print Assumptions admission_spec.
 Print Assumptions used_bounded_run.
